@@ -4,5 +4,6 @@ CONSTANTS
   MaxLen = 3
   Frames = {"G", "H", "SP"}
   Lists = {"default"}
+  ExtraTokens = {}
 INVARIANT DesignHolds
 CHECK_DEADLOCK FALSE
